@@ -1,6 +1,54 @@
-(* Properties_C07.v -- property theorems only.  C07: errors become error events, never crashes. *)
-From V Require Import Base NameMatch Chart Exec Large LargeLemmas.
+(* Properties_C07.v -- property theorems only.  C07: errors become error events, never crashes.
+   The theorems are about Exec.v (the model of BasicContentExecutor::process / processIf and
+   InterpreterImpl::isTrue, repaired variant) for every element tree, every datamodel state and every
+   queue content.  That the implementation follows this model is the correspondence of the check;
+   memory safety of the C++ is outside the model. *)
+From V Require Import Base NameMatch Chart Exec Large LargeLemmas TraceLemmas ExecLemmas.
 
+(* an element without children (raise, send, log, assign) that fails enqueues exactly one platform error
+   event; one that succeeds enqueues none *)
+Theorem one_error_per_failure : forall inst i x,
+  leaf i = true ->
+  let '(ok, x') := exec_instr ex_fixed inst i x in
+  n_plat x' = (n_plat x + if ok then 0 else 1)%nat.
+Proof. exact leaf_one_error_lemma. Qed.
+Print Assumptions one_error_per_failure.
+
+(* any element, including nested <if>: if it does not complete, at least one more platform error event is
+   in the internal queue than before *)
+Theorem failure_raises_error : forall inst i y,
+  fst (exec_instr ex_fixed inst i y) = false ->
+  (n_plat y < n_plat (snd (exec_instr ex_fixed inst i y)))%nat.
+Proof. exact exec_instr_fail_raises. Qed.
+Print Assumptions failure_raises_error.
+
+(* a failing element ends its block: the remainder of that block is skipped ... *)
+Theorem rest_of_block_skipped : forall inst a b x,
+  fst (exec_block_ok inst a x) = false ->
+  exec_block ex_fixed inst (a ++ b) x = exec_block ex_fixed inst a x.
+Proof. exact rest_of_block_skipped_lemma. Qed.
+Print Assumptions rest_of_block_skipped.
+
+(* ... and only that: without a failure the remainder runs from the state the prefix left, and the next
+   block of the same handler runs in either case (exec_blocks is a fold over the blocks) *)
+Theorem block_continues : forall inst a b x,
+  fst (exec_block_ok inst a x) = true ->
+  exec_block ex_fixed inst (a ++ b) x = exec_block ex_fixed inst b (exec_block ex_fixed inst a x).
+Proof. exact block_continues_lemma. Qed.
+Print Assumptions block_continues.
+
+Theorem next_block_runs : forall inst b bs x,
+  exec_blocks ex_fixed inst (b :: bs) x = exec_blocks ex_fixed inst bs (exec_block ex_fixed inst b x).
+Proof. reflexivity. Qed.
+Print Assumptions next_block_runs.
+
+(* error order: events already in the internal queue keep their place; whatever a block enqueues (error
+   events and raised events alike) is appended behind them in the order of occurrence *)
+Theorem error_order : forall inst b x, iq_extends x (exec_block ex_fixed inst b x).
+Proof. exact exec_block_iq. Qed.
+Print Assumptions error_order.
+
+(* the interpreter keeps running: FINISHED is only reached through the completion step *)
 Theorem finished_is_absorbing :
   forall v xv c l x, l_fin l = true -> large_step v xv c l x = (l, x, RC_FINISHED).
 Proof. exact large_step_finished_absorbing. Qed.
